@@ -712,6 +712,19 @@ def register(E):
             return [(z3.UGE(s.ln, 1), some(I(s.at(s.ln - 1), 8))), (s.ln == 0, NONE)]
         raise Inconclusive('iterator op ' + op + ' on ' + kind)
 
+    @model(r'^<std::str::CharIndices as std::iter::Iterator>::next$')
+    def _(E, st, callee, a, m):
+        it = d(st, a[0])
+        s, pos = it.data
+        l = char_len_at(s, bv(0))
+        if getattr(E, 'concrete_find', False) and not z3.is_bv_value(z3.simplify(l)):
+            u = E.unique_value(st, l)       # small-string harnesses: keep offsets concrete where the path pins the char width
+            if u is not None: l = u
+        c = decode_char_at(s, bv(0))
+        def eff(st2, l=l):
+            E.store(st2, a[0], Obj('CharIndices', (sub(s, l, s.ln - l), z3.simplify(pos + l))))
+        return [(z3.UGE(s.ln, 1), some(Tup([I(pos, 64), I(c, 32)])), eff), (s.ln == 0, NONE)]
+
     @model(r'^core::num::<impl u8>::(is_ascii\w*)$|^core::char::methods::<impl char>::(is_\w+)$|^std::char::methods::<impl char>::(is_\w+)$')
     def _(E, st, callee, a, m):
         name = [g for g in m.groups() if g][0]
